@@ -734,6 +734,23 @@ class VAMTransmissionManagement:
             }
             self.last_lf_vam_time = now
 
+    @staticmethod
+    def _cluster_information_for_coder(cluster_info: dict) -> dict:
+        """
+        Bring the clustering manager's cluster information container into the form the UPER
+        coder needs: an ASN.1 CHOICE is a (alternative name, value) pair and a BIT STRING a
+        (octets, number of bits) pair.
+        """
+        information = dict(cluster_info["vruClusterInformation"])
+        shape = information.get("clusterBoundingBoxShape")
+        if isinstance(shape, dict) and len(shape) == 1:
+            ((alternative, value),) = shape.items()
+            information["clusterBoundingBoxShape"] = (alternative, value)
+        profiles = information.get("clusterProfiles")
+        if isinstance(profiles, (bytes, bytearray)):
+            information["clusterProfiles"] = (bytes(profiles), 4)
+        return {"vruClusterInformation": information}
+
     def send_next_vam(self, vam: VAMMessage) -> None:
         """Encode and send *vam* via the BTP router.
 
@@ -754,7 +771,8 @@ class VAMTransmissionManagement:
         if self.clustering_manager is not None:
             cluster_info = self.clustering_manager.get_cluster_information_container()
             if cluster_info is not None:
-                params["vruClusterInformationContainer"] = cluster_info
+                params["vruClusterInformationContainer"] = self._cluster_information_for_coder(
+                    cluster_info)
             cluster_op = self.clustering_manager.get_cluster_operation_container()
             if cluster_op is not None:
                 params["vruClusterOperationContainer"] = cluster_op
